@@ -349,6 +349,70 @@ func finalExpHintRun(c *HintCase, res *HintRes) {
 	solveAndProve(&finalExpCircuit{}, assign, opts, res)
 }
 
+// ---- joint scalar multiplication [s]G + [t]P with the GLV decompositions shifted between the two scalars ----
+
+type swJointCircuit[B, S emulated.FieldParams] struct {
+	P, E   sw_emulated.AffinePoint[B]
+	Sc, Tc emulated.Element[S]
+}
+
+func (c *swJointCircuit[B, S]) Define(api frontend.API) error {
+	cr, err := sw_emulated.New[B, S](api, sw_emulated.GetCurveParams[B]())
+	if err != nil {
+		return err
+	}
+	r := cr.JointScalarMulBase(&c.P, &c.Tc, &c.Sc) // [Sc]G + [Tc]P
+	cr.AssertIsEqual(r, &c.E)
+	return nil
+}
+
+func swJointRun[B, S emulated.FieldParams](c *HintCase, fam string, res *HintRes) {
+	nat := swFamily(fam)
+	sv, tv := big.NewInt(1234577), big.NewInt(7654321)
+	delta := big.NewInt(1)
+	point := func(k *big.Int) sw_emulated.AffinePoint[B] {
+		x, y := nat.mul(new(big.Int).Mod(k, nat.order))
+		return sw_emulated.AffinePoint[B]{X: emulated.ValueOf[B](x), Y: emulated.ValueOf[B](y)}
+	}
+	pk := big.NewInt(5) // P = [5]G
+	// honest result [s + 5t]G ; the shifted strategy aims at [(s+d) + 5(t-d)]G
+	right := new(big.Int).Add(sv, new(big.Int).Mul(pk, tv))
+	shifted := new(big.Int).Add(new(big.Int).Add(sv, delta), new(big.Int).Mul(pk, new(big.Int).Sub(tv, delta)))
+	claim := right
+	if c.Claim == "wrong" {
+		claim = shifted
+	}
+	assign := &swJointCircuit[B, S]{P: point(pk), E: point(claim), Sc: emulated.ValueOf[S](sv), Tc: emulated.ValueOf[S](tv)}
+	var opts []solver.Option
+	switch c.Strategy {
+	case "honest":
+	case "shiftDecomp":
+		// both decomposition hints are answered for s + d and t - d instead of s and t
+		for _, name := range []string{"decomposeScalarG1Subscalars", "decomposeScalarG1Signs"} {
+			orig := hintByName(sw_emulated.GetHints(), name)
+			opts = append(opts, solver.OverrideHint(solver.GetHintID(orig), func(f *big.Int, in, out []*big.Int) error {
+				in2 := make([]*big.Int, len(in))
+				for i := range in {
+					in2[i] = new(big.Int).Set(in[i])
+				}
+				for i := range in2 {
+					// the scalars are small: their lowest limb identifies them
+					if in2[i].Cmp(sv) == 0 {
+						in2[i].Add(in2[i], delta)
+					} else if in2[i].Cmp(tv) == 0 {
+						in2[i].Sub(in2[i], delta)
+					}
+				}
+				return orig(f, in2, out)
+			}))
+		}
+	default:
+		res.Err = "INFRA unknown strategy " + c.Strategy
+		return
+	}
+	solveAndProve(&swJointCircuit[B, S]{}, assign, opts, res)
+}
+
 // CurveHints runs the hint adversaries.
 func CurveHints(args common.Args, out *common.Out) error {
 	cases, err := common.ReadNDJSON[HintCase](args.Get("in", ""))
@@ -363,6 +427,10 @@ func CurveHints(args common.Args, out *common.Out) error {
 			switch c.Gadget {
 			case "te-bn254":
 				teHintRun(c, &res)
+			case "joint-secp256k1":
+				swJointRun[emulated.Secp256k1Fp, emulated.Secp256k1Fr](c, "secp256k1", &res)
+			case "joint-bn254":
+				swJointRun[emulated.BN254Fp, emulated.BN254Fr](c, "bn254", &res)
 			case "pairing-bls12377":
 				pairHintRun(c, &res)
 			case "finalexp-bls12381":
